@@ -63,6 +63,11 @@ func NewGrafanaNetConfig(addr, apiKey, schemasFile, aggregationFile string) (Gra
 	if !strings.HasSuffix(u.Path, "/metrics") && !strings.HasSuffix(u.Path, "/metrics/") {
 		return GrafanaNetConfig{}, fmt.Errorf("NewGrafanaNetConfig: invalid value for 'addr': %q. needs to be a /metrics endpoint", addr)
 	}
+	// the schemas and aggregation urls are derived from the text of addr (see getGrafanaNetAddr), so the text itself
+	// must end on /metrics[/] too: no query, fragment or escaped spelling of the path
+	if !strings.HasSuffix(strings.TrimSuffix(addr, "/"), "/metrics") {
+		return GrafanaNetConfig{}, fmt.Errorf("NewGrafanaNetConfig: invalid value for 'addr': %q. must end on /metrics or /metrics/ (no query or fragment)", addr)
+	}
 
 	if apiKey == "" {
 		return GrafanaNetConfig{}, errors.New("NewGrafanaNetConfig: invalid value for 'apiKey'. value must be set to non-empty string")
